@@ -278,7 +278,7 @@ func malformed(c *Config) []op {
 		case 6:
 			ops = append(ops, op{kind: "reindex", a: a})
 		case 7:
-			ops = append(ops, op{kind: "sort"}, op{kind: "children", a: a}, op{kind: "parents", a: b})
+			ops = append(ops, op{kind: "sort"}, op{kind: "children", a: a}, op{kind: "parents", a: b}, op{kind: "cycle", a: b})
 		}
 	}
 	ops = append(ops, op{kind: "sort"})
